@@ -87,3 +87,12 @@ claim('C15', 'SQL effect extraction from string constants (table, WHERE columns,
       'no commit between dependent inserts without a compensating delete; TpmFile names files from one encoding. '
       'Does not decide histories, crash points or reopen.',
       'sqlite3 trigger/unique-index semantics; no PRAGMA foreign_keys in the package')
+
+claim('C16', 'provenance of each certificate field, linear size algebra on the hand-assembled outer TLV (normal-form equality), extracted model field order against the certificate format',
+      'Decides for new_cert: name = normalize(key_name)+[issuer, version] and is what is returned; content = pub_key; content type KEY; '
+      'not_before<-start_time, not_after<-end_time through strftime with the certificate format; signer argument reaches the signing '
+      'marker of the same encode; outer TLV: buffer = TL(DATA)+TL(n)+n, type at 0, length n at TL(DATA), value[0:n] at TL(DATA)+TL(n) '
+      'with n = len(value) - shrink (symbolic equality); wrappers pass the right issuer component / period; certificate models keep '
+      'SignatureInfo at 0x16 with ValidityPeriod 0xFD{0xFE,0xFF}; parse_certificate checks the Data type. '
+      'Does not decide signature validity or time-zone handling.',
+      'NDN certificate format v2 numbers; datetime.strftime semantics')
